@@ -6,9 +6,14 @@ import (
 	"golang.org/x/tools/go/ssa"
 )
 
-const bigMaxBytes = 23 // magnitudes below 2^184 keep every modelled operation inside 192 signed bits
+// BigV (big.go) models math/big.Int in sign-magnitude form: Neg (bool term) and Mag (unsigned bigW-bit
+// term), with Mag == 0 => !Neg. Magnitudes below 2^152 keep every modelled operation inside 160 bits.
 
-func (st *State) bigLoad(p Value) *Term {
+const bigMaxBytes = 19
+
+func (ex *Exec) bigZero() BigV { return BigV{Neg: ex.Ctx.False, Mag: ex.Ctx.BV(bigW, 0)} }
+
+func (st *State) bigLoad(p Value) BigV {
 	ptr := p.(Ptr)
 	if ptr.IsNil() {
 		st.ex.runtimePanic("invalid memory address or nil pointer dereference")
@@ -18,55 +23,56 @@ func (st *State) bigLoad(p Value) *Term {
 	if !ok {
 		panic(abort{"internal", "big.Int pointer does not point to a BigV"})
 	}
-	return b.T
+	return b
 }
 
-func (st *State) bigStore(p Value, t *Term) Value {
-	st.store(p.(Ptr), BigV{T: t})
+func (st *State) bigStore(p Value, b BigV) Value {
+	st.store(p.(Ptr), b)
 	return p
 }
 
-func (ex *Exec) bigConst(x *big.Int) *Term {
-	if x.Sign() >= 0 {
-		return ex.Ctx.BVBig(bigW, x)
-	}
-	m := new(big.Int).Lsh(big.NewInt(1), bigW)
-	return ex.Ctx.BVBig(bigW, m.Add(m, x))
+// twos: the two's complement value of b in bigW bits
+func (ex *Exec) bigTwos(b BigV) *Term {
+	c := ex.Ctx
+	return c.Ite(b.Neg, c.Neg(b.Mag), b.Mag)
 }
 
-func (ex *Exec) bigToGo(t *Term) *big.Int {
-	v := new(big.Int).Set(t.constBig())
-	if v.Bit(bigW-1) == 1 {
-		v.Sub(v, new(big.Int).Lsh(big.NewInt(1), bigW))
+func (ex *Exec) bigFromTwos(r *Term) BigV {
+	c := ex.Ctx
+	neg := c.Slt(r, c.BV(bigW, 0))
+	return BigV{Neg: neg, Mag: c.Ite(neg, c.Neg(r), r)}
+}
+
+func (ex *Exec) bigConst(x *big.Int) BigV {
+	return BigV{Neg: ex.Ctx.Bool(x.Sign() < 0), Mag: ex.Ctx.BVBig(bigW, new(big.Int).Abs(x))}
+}
+
+func (ex *Exec) bigIsConst(b BigV) bool { return b.Neg.IsConst() && b.Mag.IsConst() }
+
+func (ex *Exec) bigToGo(b BigV) *big.Int {
+	v := new(big.Int).Set(b.Mag.constBig())
+	if b.Neg.IsTrue() {
+		v.Neg(v)
 	}
 	return v
 }
 
-func (ex *Exec) bigAbs(t *Term) *Term {
+// bigBitLen: bit length of the magnitude as a 64-bit term
+func (ex *Exec) bigBitLen(b BigV) *Term {
 	c := ex.Ctx
-	neg := c.Slt(t, c.BV(bigW, 0))
-	return c.Ite(neg, c.Neg(t), t)
-}
-
-func (ex *Exec) bigNeg(t *Term) *Term {
-	c := ex.Ctx
-	if t.IsConst() {
-		return ex.bigConst(new(big.Int).Neg(ex.bigToGo(t)))
-	}
-	return c.Sub(c.BV(bigW, 0), t)
-}
-
-// bigBitLen returns the bit length of |t| as a 64-bit term.
-func (ex *Exec) bigBitLen(t *Term) *Term {
-	c := ex.Ctx
-	a := ex.bigAbs(t)
-	if a.IsConst() {
-		return ex.i64(int64(a.constBig().BitLen()))
+	if b.Mag.IsConst() {
+		return ex.i64(int64(b.Mag.constBig().BitLen()))
 	}
 	res := ex.i64(0)
 	for i := 0; i < bigW; i++ {
-		bit := c.Eq(c.Extract(a, i, i), c.BV(1, 1))
-		res = c.Ite(bit, ex.i64(int64(i+1)), res)
+		bit := c.Extract(b.Mag, i, i)
+		if bit.IsConst() {
+			if bit.V == 1 {
+				res = ex.i64(int64(i + 1))
+			}
+			continue
+		}
+		res = c.Ite(c.Eq(bit, c.BV(1, 1)), ex.i64(int64(i+1)), res)
 	}
 	return res
 }
@@ -74,123 +80,141 @@ func (ex *Exec) bigBitLen(t *Term) *Term {
 func (ex *Exec) initBigIntrinsics() {
 	c := ex.Ctx
 	in := ex.intrinsics
-	zero := func() *Term { return c.BV(bigW, 0) }
-	newBig := func(st *State, t *Term) Value {
+	newBig := func(st *State, b BigV) Value {
 		bt := ex.Prog.ImportedPackage("math/big").Type("Int").Type()
-		id := st.alloc(BigV{T: t}, bt)
+		id := st.alloc(b, bt)
 		return Ptr{Obj: id}
 	}
+	fromInt64 := func(x *Term) BigV { return ex.bigFromTwos(c.SExt(x, bigW-64)) }
 	in["math/big.NewInt"] = func(ex *Exec, st *State, args []Value, site ssa.CallInstruction) Value {
-		return newBig(st, c.SExt(args[0].(*Term), bigW-64))
+		return newBig(st, fromInt64(args[0].(*Term)))
 	}
 	in["(*math/big.Int).Set"] = func(ex *Exec, st *State, args []Value, site ssa.CallInstruction) Value {
 		return st.bigStore(args[0], st.bigLoad(args[1]))
 	}
 	in["(*math/big.Int).SetInt64"] = func(ex *Exec, st *State, args []Value, site ssa.CallInstruction) Value {
-		return st.bigStore(args[0], c.SExt(args[1].(*Term), bigW-64))
+		return st.bigStore(args[0], fromInt64(args[1].(*Term)))
 	}
 	in["(*math/big.Int).SetUint64"] = func(ex *Exec, st *State, args []Value, site ssa.CallInstruction) Value {
-		return st.bigStore(args[0], c.ZExt(args[1].(*Term), bigW-64))
+		return st.bigStore(args[0], BigV{Neg: c.False, Mag: c.ZExt(args[1].(*Term), bigW-64)})
 	}
 	in["(*math/big.Int).SetBytes"] = func(ex *Exec, st *State, args []Value, site ssa.CallInstruction) Value {
-		s := args[1].(SliceV)
+		s := st.simpSlice(args[1].(SliceV))
 		if s.Obj == 0 {
-			return st.bigStore(args[0], zero())
+			return st.bigStore(args[0], ex.bigZero())
 		}
 		if !st.decide(c.Sle(s.Len, ex.i64(bigMaxBytes))) {
-			unsupported("big.Int.SetBytes with more than %d bytes is outside the 192-bit model", bigMaxBytes)
+			unsupported("big.Int.SetBytes with more than %d bytes is outside the 160-bit model", bigMaxBytes)
 		}
 		n := st.ubLen(s, s.Len)
 		if n > bigMaxBytes {
 			n = bigMaxBytes
 		}
 		cells := st.termCells(s, n)
-		v := zero()
+		v := c.BV(bigW, 0)
 		for i, cell := range cells {
 			nv := c.BOr(c.Shl(v, c.BV(bigW, 8)), c.ZExt(cell, bigW-8))
 			v = c.Ite(c.Slt(ex.i64(int64(i)), s.Len), nv, v)
 		}
-		return st.bigStore(args[0], v)
+		return st.bigStore(args[0], BigV{Neg: c.False, Mag: v})
 	}
 	in["(*math/big.Int).Bytes"] = func(ex *Exec, st *State, args []Value, site ssa.CallInstruction) Value {
-		t := st.bigLoad(args[0])
-		a := ex.bigAbs(t)
-		bl := ex.bigBitLen(t)
+		b := st.bigLoad(args[0])
+		bl := ex.bigBitLen(b)
 		nb := c.LShr(c.Add(bl, ex.i64(7)), ex.i64(3))
 		n := int(st.concretize(nb, bigW/8+1))
 		vals := make([]Value, n)
 		for i := 0; i < n; i++ {
 			lo := (n - 1 - i) * 8
-			vals[i] = c.Extract(a, lo+7, lo)
+			vals[i] = c.Extract(b.Mag, lo+7, lo)
 		}
 		return st.sliceFromValues(nil, vals)
 	}
 	in["(*math/big.Int).Sign"] = func(ex *Exec, st *State, args []Value, site ssa.CallInstruction) Value {
-		t := st.bigLoad(args[0])
-		return c.Ite(c.Slt(t, zero()), ex.i64(-1), c.Ite(c.Eq(t, zero()), ex.i64(0), ex.i64(1)))
+		b := st.bigLoad(args[0])
+		return c.Ite(b.Neg, ex.i64(-1), c.Ite(c.Eq(b.Mag, c.BV(bigW, 0)), ex.i64(0), ex.i64(1)))
 	}
 	in["(*math/big.Int).BitLen"] = func(ex *Exec, st *State, args []Value, site ssa.CallInstruction) Value {
-		return ex.bigBitLen(st.bigLoad(args[0]))
+		// fork on the bit length: shifts and byte counts derived from it stay concrete
+		bl := ex.bigBitLen(st.bigLoad(args[0]))
+		return ex.i64(int64(st.concretize(bl, bigW+1)))
 	}
-	bin := func(f func(a, b *Term) *Term) intrinsic {
+	addsub := func(sub bool) intrinsic {
 		return func(ex *Exec, st *State, args []Value, site ssa.CallInstruction) Value {
-			return st.bigStore(args[0], f(st.bigLoad(args[1]), st.bigLoad(args[2])))
+			a, b := st.bigLoad(args[1]), st.bigLoad(args[2])
+			if ex.bigIsConst(a) && ex.bigIsConst(b) {
+				r := new(big.Int)
+				if sub {
+					r.Sub(ex.bigToGo(a), ex.bigToGo(b))
+				} else {
+					r.Add(ex.bigToGo(a), ex.bigToGo(b))
+				}
+				return st.bigStore(args[0], ex.bigConst(r))
+			}
+			ta, tb := ex.bigTwos(a), ex.bigTwos(b)
+			if sub {
+				return st.bigStore(args[0], ex.bigFromTwos(c.Sub(ta, tb)))
+			}
+			return st.bigStore(args[0], ex.bigFromTwos(c.Add(ta, tb)))
 		}
 	}
-	in["(*math/big.Int).Add"] = bin(func(a, b *Term) *Term { return c.Add(a, b) })
-	in["(*math/big.Int).Sub"] = bin(func(a, b *Term) *Term { return c.Sub(a, b) })
-	in["(*math/big.Int).Mul"] = bin(func(a, b *Term) *Term {
-		if !(a.IsConst() && b.IsConst()) {
+	in["(*math/big.Int).Add"] = addsub(false)
+	in["(*math/big.Int).Sub"] = addsub(true)
+	in["(*math/big.Int).Mul"] = func(ex *Exec, st *State, args []Value, site ssa.CallInstruction) Value {
+		a, b := st.bigLoad(args[1]), st.bigLoad(args[2])
+		if !(ex.bigIsConst(a) && ex.bigIsConst(b)) {
 			unsupported("big.Int.Mul of symbolic values")
 		}
-		return ex.bigConst(new(big.Int).Mul(ex.bigToGo(a), ex.bigToGo(b)))
-	})
+		return st.bigStore(args[0], ex.bigConst(new(big.Int).Mul(ex.bigToGo(a), ex.bigToGo(b))))
+	}
 	in["(*math/big.Int).Neg"] = func(ex *Exec, st *State, args []Value, site ssa.CallInstruction) Value {
-		return st.bigStore(args[0], ex.bigNeg(st.bigLoad(args[1])))
+		b := st.bigLoad(args[1])
+		return st.bigStore(args[0], BigV{Neg: c.And(c.Not(b.Neg), c.Not(c.Eq(b.Mag, c.BV(bigW, 0)))), Mag: b.Mag})
 	}
 	in["(*math/big.Int).Abs"] = func(ex *Exec, st *State, args []Value, site ssa.CallInstruction) Value {
-		return st.bigStore(args[0], ex.bigAbs(st.bigLoad(args[1])))
+		b := st.bigLoad(args[1])
+		return st.bigStore(args[0], BigV{Neg: c.False, Mag: b.Mag})
 	}
 	in["(*math/big.Int).Lsh"] = func(ex *Exec, st *State, args []Value, site ssa.CallInstruction) Value {
-		x := st.bigLoad(args[1])
-		n := args[2].(*Term)
+		b := st.bigLoad(args[1])
+		n := st.simp(args[2].(*Term))
 		if !st.decide(c.Ule(n, ex.i64(8*bigMaxBytes))) {
-			unsupported("big.Int.Lsh by more than %d bits is outside the 192-bit model", 8*bigMaxBytes)
+			unsupported("big.Int.Lsh by more than %d bits is outside the 160-bit model", 8*bigMaxBytes)
 		}
-		return st.bigStore(args[0], c.Shl(x, c.ZExt(n, bigW-64)))
+		return st.bigStore(args[0], BigV{Neg: b.Neg, Mag: c.Shl(b.Mag, c.ZExt(n, bigW-64))})
 	}
 	in["(*math/big.Int).Rsh"] = func(ex *Exec, st *State, args []Value, site ssa.CallInstruction) Value {
-		x := st.bigLoad(args[1])
+		b := st.bigLoad(args[1])
 		n := args[2].(*Term)
-		return st.bigStore(args[0], c.AShr(x, c.ZExt(n, bigW-64)))
+		return st.bigStore(args[0], ex.bigFromTwos(c.AShr(ex.bigTwos(b), c.ZExt(n, bigW-64))))
 	}
 	in["(*math/big.Int).Cmp"] = func(ex *Exec, st *State, args []Value, site ssa.CallInstruction) Value {
-		a, b := st.bigLoad(args[0]), st.bigLoad(args[1])
+		a, b := ex.bigTwos(st.bigLoad(args[0])), ex.bigTwos(st.bigLoad(args[1]))
 		return c.Ite(c.Slt(a, b), ex.i64(-1), c.Ite(c.Eq(a, b), ex.i64(0), ex.i64(1)))
 	}
 	in["(*math/big.Int).Int64"] = func(ex *Exec, st *State, args []Value, site ssa.CallInstruction) Value {
-		return c.Extract(st.bigLoad(args[0]), 63, 0)
+		return c.Extract(ex.bigTwos(st.bigLoad(args[0])), 63, 0)
 	}
 	in["(*math/big.Int).Uint64"] = func(ex *Exec, st *State, args []Value, site ssa.CallInstruction) Value {
-		return c.Extract(ex.bigAbs(st.bigLoad(args[0])), 63, 0)
+		return c.Extract(st.bigLoad(args[0]).Mag, 63, 0)
 	}
 	in["(*math/big.Int).IsInt64"] = func(ex *Exec, st *State, args []Value, site ssa.CallInstruction) Value {
-		t := st.bigLoad(args[0])
+		t := ex.bigTwos(st.bigLoad(args[0]))
 		return c.Eq(c.SExt(c.Extract(t, 63, 0), bigW-64), t)
 	}
 	in["(*math/big.Int).IsUint64"] = func(ex *Exec, st *State, args []Value, site ssa.CallInstruction) Value {
-		t := st.bigLoad(args[0])
-		return c.Eq(c.ZExt(c.Extract(t, 63, 0), bigW-64), t)
+		b := st.bigLoad(args[0])
+		return c.And(c.Not(b.Neg), c.Eq(c.ZExt(c.Extract(b.Mag, 63, 0), bigW-64), b.Mag))
 	}
 	in["(*math/big.Int).String"] = func(ex *Exec, st *State, args []Value, site ssa.CallInstruction) Value {
 		if p := args[0].(Ptr); p.IsNil() {
 			return conStr("<nil>")
 		}
-		t := st.bigLoad(args[0])
-		if !t.IsConst() {
+		b := st.bigLoad(args[0])
+		if !ex.bigIsConst(b) {
 			return conStr("‹big›")
 		}
-		return conStr(ex.bigToGo(t).String())
+		return conStr(ex.bigToGo(b).String())
 	}
 	in["(*math/big.Int).SetString"] = func(ex *Exec, st *State, args []Value, site ssa.CallInstruction) Value {
 		s := args[1].(StrV)
@@ -203,7 +227,7 @@ func (ex *Exec) initBigIntrinsics() {
 			return TupleV{Ptr{}, c.False}
 		}
 		if v.BitLen() > 8*bigMaxBytes {
-			unsupported("big.Int.SetString value beyond the 192-bit model")
+			unsupported("big.Int.SetString value beyond the 160-bit model")
 		}
 		st.bigStore(args[0], ex.bigConst(v))
 		return TupleV{args[0], c.True}
@@ -213,17 +237,17 @@ func (ex *Exec) initBigIntrinsics() {
 		var m *big.Int
 		if p := args[3].(Ptr); !p.IsNil() {
 			mt := st.bigLoad(args[3])
-			if !mt.IsConst() {
+			if !ex.bigIsConst(mt) {
 				unsupported("big.Int.Exp with symbolic modulus")
 			}
 			m = ex.bigToGo(mt)
 		}
-		if !x.IsConst() || !y.IsConst() {
+		if !ex.bigIsConst(x) || !ex.bigIsConst(y) {
 			unsupported("big.Int.Exp of symbolic values")
 		}
 		r := new(big.Int).Exp(ex.bigToGo(x), ex.bigToGo(y), m)
 		if r.BitLen() > 8*bigMaxBytes {
-			unsupported("big.Int.Exp result beyond the 192-bit model")
+			unsupported("big.Int.Exp result beyond the 160-bit model")
 		}
 		return st.bigStore(args[0], ex.bigConst(r))
 	}
